@@ -43,6 +43,13 @@ def run(F, rep, tier):
     # while the parameter itself still unifies with an impure argument
     import c02
     c02.copy_discipline(F, rep, only_generalised=True)
+    # of the one copy that is not of a generalised constant - a function read out of a blob field - what matters for purity is
+    # narrower than what matters for types (C02/C03/C05 keep the general obligation as a known finding): the purity of a function
+    # type travels with every copy, so only a copy made while the purity is still *open* can be pinned to `pu` behind the field's back
+    mine = [o for o in rep.obs if o["rule"] == "COPY" and o["key"].startswith("expression|BlobAccess|")]
+    if mine:
+        rep.obs[:] = [o for o in rep.obs if o not in mine]
+        open_purity_is_not_copied(F, rep, mine[0].get("where"))
     # `known to be pure` includes the library: an external declared `pu` does not change what it is given
     import c18
     c18.purity_decl(F, rep)
@@ -54,6 +61,37 @@ def run(F, rep, tier):
     # .. and a requirement recorded on a node stays until the node is merged: a handler that removes the constraint it has just
     # checked forgets it for the next type the node meets
     constraints_are_kept(F, rep)
+
+
+def open_purity_is_not_copied(F, rep, where):
+    fexpr = F.fn(TC + "expression")
+    ok = False
+    n = 0
+    for arm, alt in tc.arm_of(F, fexpr, E, "BlobAccess"):
+        for m in nodes(arm["body"], "Match"):
+            if not ty_is((m.get("scrut_ty") or ""), TY):
+                continue
+            copies = [a for a in m["arms"] if any(callee(c) == TC + "copy" for c in nodes(a["body"], "MethodCall"))]
+            if not copies:
+                continue
+            n += 1
+            # an arm *in front of* the copying one takes function types whose purity is Undefined and answers the node itself
+            idx = m["arms"].index(copies[0])
+            for a in m["arms"][:idx]:
+                txt = pp_pat(a["pat"])
+                b = peel(a["body"])
+                if "Type::Function" in txt and "Purity::Undefined" in txt and b.get("k") == "Path" and b.get("res") == "Local" and not a.get("guard"):
+                    ok = True
+    rep.ob("PURITY-COPY", "expression|BlobAccess|open-purity-is-not-copied", ok and n > 0,
+           "a function read out of a blob field is instantiated afresh only once its purity is settled" if ok else
+           "reading a function-typed field copies its type also while the purity is still open (`f: fn int -> int`): the copy is "
+           "pinned to `pu` by a declaration (`h : pu int -> int : b.f`) while the field itself later accepts an impure function - a "
+           "pure function calls an impure one through the field", where)
+
+
+def pp_pat(p):
+    from hir import ppat
+    return ppat(p)
 
 
 def constraints_are_kept(F, rep, rule="UNIFY-CORE"):
